@@ -1070,6 +1070,86 @@ class _Conformer2:
         self.listener(new)
 
 
+def _enclosing_class(fn):
+    """Name of the class in whose body fn was (lexically) defined, if any."""
+    parts = fn.__qualname__.split(".")[:-1]
+    while parts:
+        if parts[-1] == "<locals>":
+            # <function>.<locals>: keep looking outside of that function
+            parts = parts[:-2]
+        else:
+            return parts[-1]
+    return None
+
+
+class _Mangler(NodeTransformer):
+    """Apply the name mangling of private names (``__name``).
+
+    The compiler mangles these names in everything that is defined inside a
+    class statement. The function is compiled again outside of its class,
+    therefore it has to be done here.
+    """
+
+    def __init__(self, classname):
+        self.prefix = "_" + classname.lstrip("_")
+
+    def mangle(self, name):
+        if (
+            isinstance(name, str)
+            and name.startswith("__")
+            and not name.endswith("__")
+            and "." not in name
+        ):
+            return self.prefix + name
+        return name
+
+    def visit_Name(self, node):
+        node.id = self.mangle(node.id)
+        return node
+
+    def visit_Attribute(self, node):
+        self.generic_visit(node)
+        node.attr = self.mangle(node.attr)
+        return node
+
+    def visit_arg(self, node):
+        self.generic_visit(node)
+        node.arg = self.mangle(node.arg)
+        return node
+
+    def visit_keyword(self, node):
+        self.generic_visit(node)
+        node.arg = self.mangle(node.arg)
+        return node
+
+    def visit_FunctionDef(self, node):
+        self.generic_visit(node)
+        node.name = self.mangle(node.name)
+        return node
+
+    visit_AsyncFunctionDef = visit_FunctionDef
+
+    def visit_ClassDef(self, node):
+        # The body of a nested class is mangled by the compiler, with the
+        # name of that class
+        node.name = self.mangle(node.name)
+        node.bases = [self.visit(x) for x in node.bases]
+        node.keywords = [self.visit(x) for x in node.keywords]
+        node.decorator_list = [self.visit(x) for x in node.decorator_list]
+        return node
+
+    def visit_Global(self, node):
+        node.names = [self.mangle(name) for name in node.names]
+        return node
+
+    visit_Nonlocal = visit_Global
+
+    def visit_ExceptHandler(self, node):
+        self.generic_visit(node)
+        node.name = self.mangle(node.name)
+        return node
+
+
 def _compile(filename, tree, freevars):
     if freevars:
         if sys.version_info >= (3, 8, 0):  # pragma: no cover
@@ -1231,6 +1311,11 @@ def transform(fn, proceed, to_instrument=True, set_conformer=True):
             f" statement (got {fn})"
         )
     tree.decorator_list = []
+    classname = _enclosing_class(fn)
+    if classname is not None and classname.lstrip("_"):
+        name = tree.name
+        tree = _Mangler(classname).visit(tree)
+        tree.name = name
     # The default values are taken from fn itself rather than evaluated again
     # (they may refer to names that only exist where fn was defined).
     tree.args.defaults = []
